@@ -8,5 +8,5 @@ WT=$1; CHK=$2; TIER=${3:-quick}
 V=/tmp/vseed/$CHK.$$; mkdir -p $V
 rsync -a --exclude build --exclude replay --exclude .git --exclude seeded /verif/ $V/
 sed -i "s#=> /repo#=> $WT#" $V/harness/go.mod
-( cd $V && VERIF_NO_EVIDENCE=1 ./vf check $CHK $TIER 2>&1 | grep -v "^KNOWN" | grep "VIOLATION\|key=\|^C[0-9]\|BROKEN" | head -10 )
+( cd $V && VERIF_NO_EVIDENCE=1 ./vf check $CHK $TIER 2>&1 | grep -a -v "^KNOWN" | grep -a "VIOLATION\|key=\|^C[0-9]\|BROKEN" | head -10 )
 rm -rf $V
